@@ -104,6 +104,27 @@ func rawFor(kind, uname, size string, seed int64) []RawKey {
 		if uname == "tupleq" {
 			n = 9
 		}
+		if uname == "tuplefan" {
+			// the first byte of the encoding takes all 256 values (0xFF included), the rest is fixed: one 256-way root
+			var u []RawKey
+			w := 0
+			for _, f := range s.Fields {
+				if f == fStr {
+					w += 2
+				} else {
+					w += fieldWidth[f]
+				}
+			}
+			for b := 0; b < 256; b++ {
+				k := make([]byte, w)
+				k[0] = byte(b)
+				for i := 1; i < w; i++ {
+					k[i] = byte(0x40 + i)
+				}
+				u = append(u, RawKey{B: k})
+			}
+			return u
+		}
 		return tupleUniverse(s, seed, n)
 	}
 	if w := kindWidth(kind); w > 0 {
@@ -115,8 +136,17 @@ func rawFor(kind, uname, size string, seed int64) []RawKey {
 			r := rand.New(rand.NewSource(seed))
 			r.Shuffle(len(u), func(i, j int) { u[i], u[j] = u[j], u[i] })
 			return u[:min(len(u), 11)]
-		case "fan1", "fan2":
+		case "fan1", "fan2", "fanb", "fan18":
 			return Universe(uname, size, seed)
+		case "fanp":
+			// all 256 values of the last byte below a fixed w-1 byte path: a 256-class node WITH a compressed path
+			var u []RawKey
+			fixed := []byte{0xab, 0xcd, 0xef, 0x01, 0x23, 0x45, 0x67}
+			for b := 0; b < 256; b++ {
+				k := append(append([]byte{}, fixed[:w-1]...), byte(b))
+				u = append(u, RawKey{B: k})
+			}
+			return u
 		case "random":
 			n := 16
 			if size == "t" {
@@ -230,6 +260,7 @@ func cmdReplay(args []string) {
 	out := fs.String("out", "trace.ndjson", "")
 	bat := fs.String("battery", "all", "")
 	every := fs.Bool("every", false, "battery after every step of a behaviour (default: only after the last)")
+	histBat := fs.Int("batevery", 0, "battery after every Nth step of a behaviour (and after the last)")
 	stats := fs.String("stats", "", "")
 	maxLines := fs.Int("maxlines", 0, "start a new trace file (out.N) after this many lines")
 	fs.Parse(args)
@@ -289,7 +320,7 @@ func cmdReplay(args []string) {
 			for i, o := range ops {
 				rec.DumpAll = true
 				rec.apply(o)
-				if *every || i == len(ops)-1 {
+				if *every || i == len(ops)-1 || (*histBat > 0 && (i+1)%*histBat == 0) {
 					rec.RunBattery(bt)
 				}
 			}
